@@ -84,7 +84,7 @@ func runSH1(c *load.Ctx, r *report.RuleResult) {
 				for top.Parent() != nil {
 					top = top.Parent()
 				}
-				if !allowed[load.FuncKey(top)] {
+				if !onlyCalledFrom(c, top, allowed, map[*ssa.Function]bool{}) {
 					others = append(others, load.FuncKey(fn)+" at "+c.Pos(ins.Pos()))
 				}
 			}
@@ -456,4 +456,31 @@ func runSH2(c *load.Ctx, r *report.RuleResult) {
 	} else {
 		r.Bad("enumitem|normalisation", c.Pos(b.Pos()), fmt.Sprintf("constraint.NewEnumItem normalises with {%s} but rules/enum.newEnumItem with {%s}: duplicates are then judged differently when the rule is checked and when it is used", skel(a), skel(b)))
 	}
+}
+
+// onlyCalledFrom: fn is one of the allowed functions, or a helper all of whose (static) callers are.
+func onlyCalledFrom(c *load.Ctx, fn *ssa.Function, allowed map[string]bool, seen map[*ssa.Function]bool) bool {
+	if allowed[load.FuncKey(fn)] {
+		return true
+	}
+	if seen[fn] {
+		return true
+	}
+	seen[fn] = true
+	callers := findCallers(c, fn)
+	n := 0
+	for _, cl := range callers {
+		if cl.Synthetic != "" {
+			continue
+		}
+		top := cl
+		for top.Parent() != nil {
+			top = top.Parent()
+		}
+		n++
+		if !onlyCalledFrom(c, top, allowed, seen) {
+			return false
+		}
+	}
+	return n > 0
 }
